@@ -1852,3 +1852,12 @@ def lib_opaque_ctor(name):
 
 
 LIBFUNCS.update({"pathlib.Path": lib_opaque_ctor("Path"), "zanj.ZANJ": lib_opaque_ctor("ZANJ")})
+
+
+def torch_tensor(interp, st, args, kwargs, node):
+    """torch.tensor(ndarray): the same values as a tensor (trusted; indexing / shape are those of the array)"""
+    _trust("torch.tensor(a) holds the values of the array a in the same layout")
+    return args[0]
+
+
+LIBFUNCS.update({"torch.tensor": torch_tensor})
